@@ -233,8 +233,9 @@ def run(ctx):
     cd = ctx.cfg(dof)
     fd = ctx.facts(dof)
     orq = [n for n in cd.nodes if any(call_name(c) == "send_offset_request" for c in n.calls())]
-    okd = bool(orq) and any("self._fetch_offset == OFFSET_EARLIEST or self._fetch_offset == OFFSET_LATEST" == t and p
-                            for t, p in fd[orq[0].id])
+    okd = bool(orq) and (any("self._fetch_offset == OFFSET_EARLIEST or self._fetch_offset == OFFSET_LATEST" == t and p
+                             for t, p in resolved_facts(fd[orq[0].id]) | set(fd[orq[0].id])) or facts_imply(
+        prog, dof, fd[orq[0].id], {"e": "self._fetch_offset == OFFSET_EARLIEST", "l": "self._fetch_offset == OFFSET_LATEST"}, lambda env: env["e"] or env["l"]))
     oreq = [c for c in calls_in(dof, "OffsetRequest")]
     okd = okd and bool(oreq) and len(oreq[0].args) >= 3 and norm(at(ctx, dof, cd.containing(oreq[0])[0].id, oreq[0].args[2])) == "self._fetch_offset"
     r.check(okd, "%s#symbolic-offset-resolved" % dof.qname,
